@@ -117,6 +117,9 @@ type c05Form struct {
 	later bool
 	// mutateStored: the mutation is applied to the stored value through a borrowed reference
 	mutateStored bool
+	// tmp: an expression yielding a fresh copy; the mutation is applied directly
+	// to that temporary (side "tmp"), every named side must stay untouched
+	tmp string
 }
 
 var c05Forms = []c05Form{
@@ -131,6 +134,9 @@ var c05Forms = []c05Form{
 	{name: "save-copy", copy: "a.storage.save(v, to: /storage/x)\nvar w = a.storage.copy<T>(from: /storage/x)!", w: "w", wVar: true, extra: []string{"a.storage.copy<T>(from: /storage/x)!"}, acct: true},
 	{name: "save-load", copy: "a.storage.save(v, to: /storage/x)\nvar w = a.storage.load<T>(from: /storage/x)!", w: "w", wVar: true, acct: true},
 	{name: "save-borrow-mutate", copy: "a.storage.save(v, to: /storage/x)\nvar w = a.storage.copy<T>(from: /storage/x)!", w: "w", wVar: true, acct: true, mutateStored: true},
+	{name: "save-copy-mutate-temporary", copy: "a.storage.save(v, to: /storage/x)", w: "a.storage.copy<T>(from: /storage/x)!", acct: true, tmp: "(a.storage.copy<T>(from: /storage/x)!)"},
+	{name: "later-copy-mutate-temporary", copy: "let keep = a.storage.copy<T>(from: /storage/x)!", w: "keep", acct: true, later: true, tmp: "(a.storage.copy<T>(from: /storage/x)!)", extra: []string{"a.storage.copy<T>(from: /storage/x)!"}},
+	{name: "pass-mutate-temporary", decl: "access(all) fun pass(_ x: T): T { return x }", copy: "let keep = v", w: "keep", tmp: "pass(v)"},
 	{name: "later-copy", copy: "var w = a.storage.copy<T>(from: /storage/x)!", w: "w", wVar: true, extra: []string{"a.storage.copy<T>(from: /storage/x)!"}, acct: true, later: true},
 	{name: "later-copy-mutate-stored", copy: "var w = a.storage.copy<T>(from: /storage/x)!", w: "w", wVar: true, acct: true, later: true, mutateStored: true},
 	{name: "later-load-save-twice", copy: "var w = a.storage.load<T>(from: /storage/x)!\na.storage.save(w, to: /storage/y)\na.storage.save(w, to: /storage/z)", w: "w", wVar: true, extra: []string{"a.storage.copy<T>(from: /storage/y)!", "a.storage.copy<T>(from: /storage/z)!"}, acct: true, later: true},
@@ -141,7 +147,7 @@ type c05Case struct {
 	Size   int    `json:"size"`
 	Form   int    `json:"form"`
 	Mut    int    `json:"mut"`
-	Side   string `json:"side"`   // "v" | "w" | "stored"
+	Side   string `json:"side"`   // "v" | "w" | "stored" | "tmp"
 	Access string `json:"access"` // direct | ref-before | ref-after
 	VM     bool   `json:"vm"`
 }
@@ -187,8 +193,15 @@ func c05Render(c c05Case) (progs []c05Prog, ok bool) {
 		if !f.mutateStored || c.Access != "ref-after" {
 			return nil, false
 		}
+	case "tmp":
+		if f.tmp == "" || c.Access != "direct" {
+			return nil, false
+		}
 	}
 	if f.mutateStored && c.Side != "stored" {
+		return nil, false
+	}
+	if f.tmp != "" && c.Side != "tmp" {
 		return nil, false
 	}
 	rep := func(s string) string { return strings.ReplaceAll(s, "T", T) }
@@ -204,6 +217,8 @@ func c05Render(c c05Case) (progs []c05Prog, ok bool) {
 	body.WriteString(rep(f.copy) + "\n")
 	target := c.Side
 	switch {
+	case c.Side == "tmp":
+		target = rep(f.tmp)
 	case c.Side == "stored":
 		fmt.Fprintf(&body, "let r = a.storage.borrow<auth(Mutate) &%s>(from: /storage/x)!\n", T)
 		target = "r"
@@ -286,6 +301,9 @@ func c05Run(c c05Case) (verdict, detail string, changed bool) {
 		return "HARNESS", fmt.Sprintf("unexpected log shape: %v", logs), false
 	}
 	before := ""
+	if c.Side == "tmp" {
+		changed = true // the mutated temporary cannot be observed afterwards
+	}
 	for i := 0; i < len(logs); i += 2 {
 		label := strings.Trim(logs[i], "\"")
 		val, err := c05Canon(logs[i+1])
@@ -303,6 +321,7 @@ func c05Run(c c05Case) (verdict, detail string, changed bool) {
 			if val != before {
 				changed = true
 			}
+
 		default:
 			return "HARNESS", "unexpected label " + label, false
 		}
@@ -353,7 +372,7 @@ func runC05(env *mc.Env) {
 			seen[n] = true
 			for fi := range c05Forms {
 				for mi := range sh.muts {
-					for _, side := range []string{"v", "w", "stored"} {
+					for _, side := range []string{"v", "w", "stored", "tmp"} {
 						for _, acc := range []string{"direct", "ref-before", "ref-after"} {
 							for _, vm := range both {
 								c := c05Case{Shape: si, Size: n, Form: fi, Mut: mi, Side: side, Access: acc, VM: vm}
@@ -562,7 +581,7 @@ func (p *c05Parser) value() (string, error) {
 func init() {
 	mc.Register(&mc.Check{
 		ID: "C05",
-		Rule: "every combination of 9 shapes (arrays, dictionaries and structs nested up to depth 3) x sizes {0, 1, 2, inline-1, inline, split-1, split} (atree thresholds measured per shape at run time) x 14 copy forms (let, argument+return, struct field, array append, dictionary insert, optional, dereference, save+copy, save+load, save+borrow, and copy / borrow / load+save in a later transaction) x mutated side x 3-5 mutations per shape at depth 1..3 x access mode (direct, reference taken before the copy, reference taken after), both engines; the checker decides which combinations are programs (rejections counted). Oracle: after the mutation every side that was not mutated prints what the original printed before the copy (order-insensitive for dictionaries and fields). Non-trivial = accepted case in which the mutated side visibly changed.",
+		Rule: "every combination of 9 shapes (arrays, dictionaries and structs nested up to depth 3) x sizes {0, 1, 2, inline-1, inline, split-1, split} (atree thresholds measured per shape at run time) x 17 copy forms (let, argument+return, struct field, array append, dictionary insert, optional, dereference, save+copy, save+load, save+borrow, copy / borrow / load+save in a later transaction, and mutation of the temporary returned by copy<T>() or by a function) x mutated side x 3-5 mutations per shape at depth 1..3 x access mode (direct, reference taken before the copy, reference taken after), both engines; the checker decides which combinations are programs (rejections counted). Oracle: after the mutation every side that was not mutated prints what the original printed before the copy (order-insensitive for dictionaries and fields). Non-trivial = accepted case in which the mutated side visibly changed.",
 		Assumptions: []string{
 			"values are observed through their logged String() form, parsed and canonicalised (dictionary entries and struct fields sorted)",
 			"whether a particular mutation syntax mutates in place is not judged; only independence of the other side is",
